@@ -136,8 +136,9 @@ CoordNames == {"x", "y", "rho", "phi", "z", "theta", "eta", "t", "tau"}
 
 Entry(kind, name, arg, post, raised) == [kind |-> kind, name |-> name, arg |-> arg, post |-> post, raised |-> raised]
 
-\* assigning rho to an (x, y)-stored vector of zero length has no direction to preserve
-HasDirectionFor(o, name) == ~(name = "rho" /\ o.az[1] = "xy" /\ GRho(o) = Zero)
+\* assigning rho to a vector whose azimuthal part has length zero has no direction to preserve
+\* (in rho-phi storage the stored phi of a zero-length result of += / -= is a rounding residue)
+HasDirectionFor(o, name) == ~(name = "rho" /\ GRho(o) = Zero)
 Set(name, v) ==
     /\ HasGroup(obj, name)
     /\ HasDirectionFor(obj, name)
